@@ -107,7 +107,7 @@ def run(ctx):
     # loadable, so inside the quantifier
     from .. import links
     for i in range(4 if q else 60):
-        n = rnd.randrange(3, 7)
+        n = rnd.randrange(4, 8)
         p = links.make_project(n, rnd, links.simple_classes()[:6])
         src = p.modules[rnd.randrange(1, n)]
         p.connect(src, [m for m in p.modules[1:] if m is not src][:rnd.randrange(2, n - 1)])
